@@ -299,7 +299,8 @@ def gen(ctx):
     # C08_SKIP_CORPUS=1: sanity runs that must find a re-introduced defect with generated histories alone
     hs = [] if os.environ.get('C08_SKIP_CORPUS') else [('corpus:' + n, h) for n, h in load_corpus()]
     pairs = hu.pair_histories()
-    hs += [('pair', h) for h in pairs]
+    if not os.environ.get('C08_ONLY_RANDOM'):   # sanity runs of the SEARCH layer
+        hs += [('pair', h) for h in pairs]
     extra = []
     try:
         import abbr_gen as g
